@@ -152,7 +152,9 @@ def check_series(case):
                             ('call', lambda ss: f(*ss, join=how, method=method)),
                             ('kw', lambda ss: type(f)(f.function, index=long, method=method)(ss[0], **dict(zip('bc', ss[1:])))),
                             ('call-kw', lambda ss: f(ss[0], join=how, method=method, **dict(zip('bc', ss[1:])))),
-                            ('call-allkw', lambda ss: f(join=how, method=method, **dict(zip('abc', ss))))]
+                            ('call-allkw', lambda ss: f(join=how, method=method, **dict(zip('abc', ss)))),
+                            # keywords given in the REVERSE of the signature's order: first / last follow the caller's order (the results come back by parameter)
+                            ('call-allkw-reversed', lambda ss: f(join=how, method=method, **dict(list(zip('abc', ss))[::-1])))]
                 if method in (None, 'ffill'):
                     variants.append(('prop', lambda ss: (getattr(f, how).ffill if method == 'ffill' else getattr(f, how))(*ss)))
                 if method == 'bfill' and case.get('quick'):
@@ -166,7 +168,8 @@ def check_series(case):
                         if not isinstance(res, tuple) or len(res) != k:
                             out.viol('container-changed', 'presync %s returned %r' % (vname, type(res).__name__), f='presync-' + vname, **sig)
                         else:
-                            _check_seq_result(out, res, models, days, method, 'presync[%s](%s, %s, %s)' % (vname, desc, how, method), dict(f='presync-' + vname, **sig))
+                            vdays = tm.common_days(daysets[::-1], how) if vname == 'call-allkw-reversed' else days
+                            _check_seq_result(out, res, models, vdays, method, 'presync[%s](%s, %s, %s)' % (vname, desc, how, method), dict(f='presync-' + vname, **sig))
                     except Exception as e:
                         out.viol('raised', 'presync[%s](%s, %s, %s) raised %s: %s' % (vname, desc, how, method, type(e).__name__, e), f='presync-' + vname, **sig)
     # explicit timeseries as the index
@@ -410,6 +413,7 @@ def gen_arrays(maxlen):
             yield {'lens': list(lens), 'twod': False}
     for lens in itertools.product(range(maxlen + 1), repeat=2):
         yield {'lens': list(lens), 'twod': True}
+        yield {'lens': list(lens), 'twod': False, 'ints': True}
 
 
 def check_arrays(case):
@@ -419,6 +423,8 @@ def check_arrays(case):
 
     def build():
         arrs = [np.array([10.0 * (k + 1) + i for i in range(n)]) for k, n in enumerate(lens)]
+        if case.get('ints'):
+            arrs = [a.astype(np.int64 if k % 2 == 0 else bool) for k, a in enumerate(arrs)]          # integer / bool arrays: the NaN padding makes them float
         if case['twod']:
             arrs[0] = np.array([[10.0 + i, 50.0 + i] for i in range(lens[0])]).reshape(lens[0], 2)
         return arrs
@@ -443,6 +449,12 @@ def check_arrays(case):
             for k, (r, a) in enumerate(zip(res, snaps)):
                 if len(a) >= n:
                     want = a[len(a) - n:]
+                elif case.get('ints'):
+                    want = np.concatenate([np.full((n - len(a),), np.nan), a.astype(float)])
+                    if isinstance(r, np.ndarray) and r.shape == want.shape and r.dtype.kind in 'iub':
+                        r = None          # an integer / bool result cannot hold the NaN padding
+                    elif isinstance(r, np.ndarray):
+                        r = np.asarray(r, dtype=float)
                 else:
                     pad = np.full((n - len(a),) + a.shape[1:], np.nan)
                     want = np.concatenate([pad, a])
